@@ -301,7 +301,7 @@ mod verif_c05_frames_fixed {
         let (_buf, written) = verif_enc!(&f, 40);
         assert!(written == f.encoding_size(), "C05.frame.ack0_noecn.sizes.written_eq_encoding_size");
         assert!(written <= f.max_encoding_size(), "C05.frame.ack0_noecn.sizes.written_le_max_encoding_size");
-        kani::cover!(written == 33, "C05.frame.ack0_noecn.sizes.reach_all_8_byte");
+        kani::cover!(written == 26, "C05.frame.ack0_noecn.sizes.reach_all_fields_8_byte");
         kani::cover!(written == 5, "C05.frame.ack0_noecn.sizes.reach_all_1_byte");
     }
 
@@ -313,7 +313,7 @@ mod verif_c05_frames_fixed {
         let (_buf, written) = verif_enc!(&f, 56);
         assert!(written == f.encoding_size(), "C05.frame.ack1_noecn.sizes.written_eq_encoding_size");
         assert!(written <= f.max_encoding_size(), "C05.frame.ack1_noecn.sizes.written_le_max_encoding_size");
-        kani::cover!(written == 49, "C05.frame.ack1_noecn.sizes.reach_all_8_byte");
+        kani::cover!(written == 42, "C05.frame.ack1_noecn.sizes.reach_all_fields_8_byte");
         kani::cover!(written == 7, "C05.frame.ack1_noecn.sizes.reach_all_1_byte");
     }
 
@@ -325,7 +325,7 @@ mod verif_c05_frames_fixed {
         let (_buf, written) = verif_enc!(&f, 72);
         assert!(written == f.encoding_size(), "C05.frame.ack2_noecn.sizes.written_eq_encoding_size");
         assert!(written <= f.max_encoding_size(), "C05.frame.ack2_noecn.sizes.written_le_max_encoding_size");
-        kani::cover!(written == 65, "C05.frame.ack2_noecn.sizes.reach_all_8_byte");
+        kani::cover!(written == 58, "C05.frame.ack2_noecn.sizes.reach_all_fields_8_byte");
         kani::cover!(written == 9, "C05.frame.ack2_noecn.sizes.reach_all_1_byte");
     }
 
@@ -337,7 +337,7 @@ mod verif_c05_frames_fixed {
         let (_buf, written) = verif_enc!(&f, 64);
         assert!(written == f.encoding_size(), "C05.frame.ack0_ecn.sizes.written_eq_encoding_size");
         assert!(written <= f.max_encoding_size(), "C05.frame.ack0_ecn.sizes.written_le_max_encoding_size");
-        kani::cover!(written == 57, "C05.frame.ack0_ecn.sizes.reach_all_8_byte");
+        kani::cover!(written == 50, "C05.frame.ack0_ecn.sizes.reach_all_fields_8_byte");
         kani::cover!(written == 8, "C05.frame.ack0_ecn.sizes.reach_all_1_byte");
     }
 
@@ -349,7 +349,7 @@ mod verif_c05_frames_fixed {
         let (_buf, written) = verif_enc!(&f, 80);
         assert!(written == f.encoding_size(), "C05.frame.ack1_ecn.sizes.written_eq_encoding_size");
         assert!(written <= f.max_encoding_size(), "C05.frame.ack1_ecn.sizes.written_le_max_encoding_size");
-        kani::cover!(written == 73, "C05.frame.ack1_ecn.sizes.reach_all_8_byte");
+        kani::cover!(written == 66, "C05.frame.ack1_ecn.sizes.reach_all_fields_8_byte");
         kani::cover!(written == 10, "C05.frame.ack1_ecn.sizes.reach_all_1_byte");
     }
 
@@ -361,7 +361,7 @@ mod verif_c05_frames_fixed {
         let (_buf, written) = verif_enc!(&f, 96);
         assert!(written == f.encoding_size(), "C05.frame.ack2_ecn.sizes.written_eq_encoding_size");
         assert!(written <= f.max_encoding_size(), "C05.frame.ack2_ecn.sizes.written_le_max_encoding_size");
-        kani::cover!(written == 89, "C05.frame.ack2_ecn.sizes.reach_all_8_byte");
+        kani::cover!(written == 82, "C05.frame.ack2_ecn.sizes.reach_all_fields_8_byte");
         kani::cover!(written == 12, "C05.frame.ack2_ecn.sizes.reach_all_1_byte");
     }
 
@@ -381,7 +381,7 @@ mod verif_c05_frames_fixed {
         assert!(r.decodes, "C05.frame.ack0_noecn.decodes");
         assert!(r.consumes_exactly, "C05.frame.ack0_noecn.consumes_exactly");
         assert!(r.value_equal, "C05.frame.ack0_noecn.value_equal");
-        kani::cover!(r.written == 33, "C05.frame.ack0_noecn.reach_all_8_byte");
+        kani::cover!(r.written == 26, "C05.frame.ack0_noecn.reach_all_fields_8_byte");
         kani::cover!(r.written == 5, "C05.frame.ack0_noecn.reach_all_1_byte");
     }
 
@@ -401,7 +401,7 @@ mod verif_c05_frames_fixed {
         assert!(r.decodes, "C05.frame.ack1_noecn.decodes");
         assert!(r.consumes_exactly, "C05.frame.ack1_noecn.consumes_exactly");
         assert!(r.value_equal, "C05.frame.ack1_noecn.value_equal");
-        kani::cover!(r.written == 49, "C05.frame.ack1_noecn.reach_all_8_byte");
+        kani::cover!(r.written == 42, "C05.frame.ack1_noecn.reach_all_fields_8_byte");
         kani::cover!(r.written == 7, "C05.frame.ack1_noecn.reach_all_1_byte");
     }
 
@@ -421,7 +421,7 @@ mod verif_c05_frames_fixed {
         assert!(r.decodes, "C05.frame.ack2_noecn.decodes");
         assert!(r.consumes_exactly, "C05.frame.ack2_noecn.consumes_exactly");
         assert!(r.value_equal, "C05.frame.ack2_noecn.value_equal");
-        kani::cover!(r.written == 65, "C05.frame.ack2_noecn.reach_all_8_byte");
+        kani::cover!(r.written == 58, "C05.frame.ack2_noecn.reach_all_fields_8_byte");
         kani::cover!(r.written == 9, "C05.frame.ack2_noecn.reach_all_1_byte");
     }
 
@@ -441,7 +441,7 @@ mod verif_c05_frames_fixed {
         assert!(r.decodes, "C05.frame.ack0_ecn.decodes");
         assert!(r.consumes_exactly, "C05.frame.ack0_ecn.consumes_exactly");
         assert!(r.value_equal, "C05.frame.ack0_ecn.value_equal");
-        kani::cover!(r.written == 57, "C05.frame.ack0_ecn.reach_all_8_byte");
+        kani::cover!(r.written == 50, "C05.frame.ack0_ecn.reach_all_fields_8_byte");
         kani::cover!(r.written == 8, "C05.frame.ack0_ecn.reach_all_1_byte");
     }
 
